@@ -44,7 +44,7 @@ def Pres.serView : Pres → Pres
 `wrapped member`  `s.list(tag, member, iter)` / `d.list_content(member)`: `<tag><member>…</member>*</tag>`
 `flat`            `s.flattened_list(tag, iter)` / `get_or_insert_with(List::new).push`: `<tag>…</tag>*`
 `attr`            not an element: the attribute `tag` of the start tag of the struct's own element (Smithy
-                  `xmlAttribute`; since 1dc4ea8): listed by `fn attributes(&self)` / read by `d.attribute(tag)`.
+                  `xmlAttribute`; since 680006e): listed by `fn attributes(&self)` / read by `d.attribute(tag)`.
                   Only in the tree schema — the flat table entries carry the flag `FieldDef.attr` instead. -/
 inductive Shape where
   | single | wrapped (member : Bytes) | flat | attr
@@ -60,7 +60,7 @@ inductive Kind (τ : Type) where
   deriving DecidableEq, Repr
 
 /-- one member of a struct. `attr`: the member is an attribute of the start tag of the struct's element (Smithy
-`xmlAttribute`; in the Rust tables: listed by `fn attributes` / read by `d.attribute`, since 1dc4ea8). `nsdecl`: the
+`xmlAttribute`; in the Rust tables: listed by `fn attributes` / read by `d.attribute`, since 680006e). `nsdecl`: the
 start tag of the member's element declares a namespace prefix (Smithy: member-level `xmlNamespace` with a prefix; the
 Rust tables carry `false`: what the serialiser writes there follows from the model, `S3V.C13.declares`). -/
 structure FieldDef (τ : Type) where
